@@ -1,7 +1,7 @@
 (* Extraction of the executable model to OCaml.  ExtrOcamlBasic only:
    N, positive, Z, nat and byte stay Coq inductives.  Run coqc from the
    directory that is to receive model.ml. *)
-From MQ Require Import Model.Render.
+From MQ Require Import Model.Render Spec.Mqtt5 Spec.Glue.
 From Coq Require Import ZArith.
 Require Extraction.
 Require Import ExtrOcamlBasic.
@@ -13,4 +13,5 @@ Extraction "model.ml"
   vb_stream read_packet write_to run_calls step ctor snapshot wellformed
   encode_pkt unmarshal unmarshal_steps kind_of_nibble kind_nibble applicable zero_pkt
   read_full one string_toks dump_toks first_byte_string connect_flags_string
-  connack_flags_string filter_string reason_toks stars.
+  connack_flags_string filter_string reason_toks stars
+  spec_decode spec_encode frame_obs body_segs e_var e_body prop_type allowed is_bool_prop.
